@@ -176,6 +176,7 @@ def _encode(buffer: "_Buffer", fcp: "ref:FcpV2", type: "ref:Type", data: "dyn"):
     modifies(buffer.buffer, buffer.gbits, buffer.bitaddr)
     ensures(BufOK(buffer.buffer, buffer.gbits, buffer.bitaddr))
     ensures(buffer.gbits == old(buffer.gbits) + wire(fcp, type, data))
+    option("opaque", ["wire_struct", "conforms_struct"])
 
 
 @contract("fcp.serde:_Buffer.get_buffer")
@@ -187,3 +188,4 @@ def get_buffer(self: "_Buffer") -> "arr":
 def encode(fcp: "ref:FcpV2", name: "str", data: "dyn") -> "arr":
     requires(conforms_struct(fcp, name, data))
     ensures(Rep(result, wire_struct(fcp, name, data)))
+    option("opaque", ["wire_struct", "conforms_struct"])
